@@ -18,10 +18,15 @@ CONSTANTS Keys,          \* key names, e.g. {"A","B","C"}
 
 Pws == {"p", "q", "z"}          \* message passwords; "z" is never a recipient
 
-(* an ESK: [kind |-> "pk", named, real] named \in Keys \cup {"wild"} ; [kind |-> "sk", pw] *)
-(* presented key: [key, lock] lock \in {"open", "locked_right", "locked_wrong"}            *)
+(* an ESK: [kind |-> "pk", named, real] named \in Keys \cup {"wild"} ;                          *)
+(*         [kind |-> "sk", pw, wrap] wrap \in {"same","other"}: the v4 SKESK wraps the session  *)
+(*         key with the session cipher itself or with a cipher of another key size               *)
+(* presented key: [key, lock]; the ENCRYPTION SUBKEY does the work, so what matters is whether   *)
+(* it can be unlocked: open / locked with the right key password presented / locked, only a      *)
+(* wrong password presented / only the subkey locked (right password presented) / only the       *)
+(* primary locked (no password presented - the open subkey needs none)                           *)
 
-Unlockable(pk) == pk.lock \in {"open", "locked_right"}
+Unlockable(pk) == pk.lock \in {"open", "locked_right", "sub_locked_right", "primary_locked_only"}
 
 (* ---------- what the property demands ---------- *)
 ValidKey(cfg, pk) == Unlockable(pk) /\ \E i \in 1..Len(cfg.esks) :
@@ -86,31 +91,38 @@ Proc(cfg, garbage) ==
           ELSE "err"
 
 (* ---------- configurations ---------- *)
-Locks == {"open", "locked_right", "locked_wrong"}
+Locks == {"open", "locked_right", "locked_wrong", "sub_locked_right", "primary_locked_only"}
 SeqsUpTo(S, n) == UNION {[1..k -> S] : k \in 0..n}
 Distinct(s) == \A i, j \in 1..Len(s) : i # j => s[i] # s[j]
 DistinctKeys(s) == \A i, j \in 1..Len(s) : i # j => s[i].key # s[j].key
 
 PkEsks == [kind : {"pk"}, named : Keys \cup {"wild"}, real : Keys]
-SkEsks == [kind : {"sk"}, pw : {"p", "q"}]
+SkEsks == [kind : {"sk"}, pw : {"p", "q"}, wrap : {"same", "other"}]
 
 VARIABLES cfg, garbage, phase
 vars == <<cfg, garbage, phase>>
-CONSTANTS MaxEsks, MaxPresented
+CONSTANTS MaxEsks, MaxKeys, MaxPws, MaxSks
 
-Configs ==
-  { [family |-> f, esks |-> e, keys |-> k, pws |-> p, sks |-> s, abort_early |-> a] :
-      f \in {"v1", "v2"},
-      e \in {x \in SeqsUpTo(PkEsks \cup SkEsks, MaxEsks) : Len(x) >= 1},
-      k \in {x \in SeqsUpTo([key : Keys, lock : Locks], MaxPresented) : DistinctKeys(x)},
-      p \in {x \in SeqsUpTo(Pws, MaxPresented) : Distinct(x)},
-      s \in SeqsUpTo({"good", "bad"}, MaxPresented),
-      a \in BOOLEAN }
-
-Init == cfg \in Configs /\ garbage \in SUBSET {"z"} /\ phase = "start"
-Next == phase = "start" /\ phase' = "done" /\ UNCHANGED <<cfg, garbage>>
+(* the configuration is chosen in three steps so that TLC builds the space in parallel *)
+EsksChoices == {x \in SeqsUpTo(PkEsks \cup SkEsks, MaxEsks) : Len(x) >= 1}
+KeysChoices == {x \in SeqsUpTo([key : Keys, lock : Locks], MaxKeys) : DistinctKeys(x)}
+PwsChoices == {x \in SeqsUpTo(Pws, MaxPws) : Distinct(x)}
+SksChoices == SeqsUpTo({"good", "bad"}, MaxSks)
+Empty == [family |-> "v1", esks |-> <<>>, keys |-> <<>>, pws |-> <<>>, sks |-> <<>>, abort_early |-> FALSE]
+Init == cfg = Empty /\ garbage = {} /\ phase = "pick_esks"
+PickEsks == /\ phase = "pick_esks"
+            /\ \E f \in {"v1", "v2"} : \E e \in EsksChoices : cfg' = [cfg EXCEPT !.family = f, !.esks = e]
+            /\ phase' = "pick_keys" /\ UNCHANGED garbage
+PickKeys == /\ phase = "pick_keys"
+            /\ \E k \in KeysChoices : cfg' = [cfg EXCEPT !.keys = k]
+            /\ phase' = "pick_rest" /\ UNCHANGED garbage
+PickRest == /\ phase = "pick_rest"
+            /\ \E p \in PwsChoices : \E s \in SksChoices : \E a \in BOOLEAN : \E g \in SUBSET {"z"} :
+                  cfg' = [cfg EXCEPT !.pws = p, !.sks = s, !.abort_early = a] /\ garbage' = g
+            /\ phase' = "start"
+Next == PickEsks \/ PickKeys \/ PickRest
 Spec == Init /\ [][Next]_vars
 
 (* C18: the procedure never does anything the property forbids *)
-ProcWithinIntended == Proc(cfg, garbage) \in Intended(cfg)
+ProcWithinIntended == (phase = "start") => Proc(cfg, garbage) \in Intended(cfg)
 =============================================================================
